@@ -33,6 +33,11 @@ WS = {'s3': [[0, 2, -1], [2, 0, 1], [-1, 1, 0]], 's4': [[0, 2, -1, 0], [2, 0, 3,
 W6 = {'u6pairs': [[0, 5, 0, 0, 0, 1], [5, 0, 2, 0, 0, 0], [0, 2, 0, 5, 0, 0], [0, 0, 5, 0, 1, 0], [0, 0, 0, 1, 0, 5], [1, 0, 0, 0, 5, 0]],
       'u6pairs_b': [[0, 4, 1, 0, 0, 0], [4, 0, 0, 0, 0, 2], [1, 0, 0, 4, 0, 0], [0, 0, 4, 0, 2, 0], [0, 0, 0, 2, 0, 4], [0, 2, 0, 0, 4, 0]],
       'u6pairs_c': [[0, 4, 1, 0, 0, 0], [4, 0, 0, 0, 0, 2], [1, 0, 0, 4, 0, 0], [0, 0, 4, 0, 1, 0], [0, 0, 0, 1, 0, 2], [0, 2, 0, 0, 2, 0]]}
+# five nodes with unequal strengths, started from partitions whose labels are not the node indices (bookkeeping indexed by
+# module label vs by node shows only there); four visiting orders per sweep
+W5 = {'p5w': [[0, 3, 0, 0, 0], [3, 0, 0, 3, 0], [0, 0, 0, 1, 0], [0, 3, 1, 0, 1], [0, 0, 0, 1, 0]],
+      'k5w': [[0, 2, 1, 0, 0], [2, 0, 3, 0, 0], [1, 3, 0, 1, 0], [0, 0, 1, 0, 4], [0, 0, 0, 4, 0]]}
+ORDERS5 = [[0, 1, 2, 3, 4], [4, 3, 2, 1, 0], [2, 4, 0, 3, 1], [3, 0, 4, 1, 2]]
 ORDERS6 = [[0, 1, 2, 3, 4, 5], [5, 4, 3, 2, 1, 0], [2, 5, 0, 3, 1, 4], [4, 1, 3, 0, 5, 2]]
 STARTS = {3: [None, [1, 1, 1], [5, 2, 5]], 4: [None, [1, 1, 1, 1], [1, 1, 2, 2], [7, 3, 3, 7]]}
 
@@ -72,6 +77,10 @@ def cases(tier, seed, prop='C02'):
             for st in ([3, 3, 1, 1, 2, 2], [1, 1, 2, 2, 3, 4], [1, 2, 3, 3, 4, 4]):
                 add('community_louvain', wn, W6[wn], B='modularity', orders6=True, start=st)
             add('modularity_louvain_und', wn, W6[wn], orders6=True)
+        for wn in W5:
+            for st in ([1, 1, 4, 5, 5], [2, 2, 1, 1, 3], [3, 1, 1, 2, 2]):
+                add('modularity_finetune_und', wn, W5[wn], start=st, orders5=True, draws=4)
+                add('community_louvain', wn, W5[wn], B='modularity', start=st, orders5=True, draws=4)
         for c in cs: c['budget_s'] = 300
     else:
         for wn, W in WU.items():
@@ -186,7 +195,7 @@ def body_opt(case, M, props):
     W = M.array([[float(x) if not M.symbolic else x for x in r] for r in Wl], 'f')
     start = case.get('start')
     ci0 = M.array(start, 'i') if start else None
-    rng = M.rng(budget=case.get('draws', 6), fork_perm=True, fork_int=True, perm_subset=ORDERS6 if case.get('orders6') else None)
+    rng = M.rng(budget=case.get('draws', 6), fork_perm=True, fork_int=True, perm_subset=(ORDERS6 if case.get('orders6') else ORDERS5 if case.get('orders5') else None))
     hier = bool(case.get('hierarchy'))
     out = call_opt(M, case, W, gamma, ci0, rng, hier)
     ci, q = out
